@@ -636,3 +636,8 @@ class SentenceNode(Node): pass
 class SentenceWorldNode(SentenceNode, WorldNode): pass
 class SentenceDesignationNode(SentenceNode, DesignationNode): pass
 class SentenceDesignationWorldNode(SentenceDesignationNode, SentenceWorldNode): pass
+
+import os as _os
+if _os.environ.get('PYTABLEAUX_VERIF') == '1': # pragma: no cover
+    from .. import _verif
+    _verif.install_node_order(Node, Branch)
